@@ -89,10 +89,7 @@ def ob_keygen_sm9(fname, twist):
         c = load_crate("gm-sm9")
         def run(ctx):
             dom = BV(); ex = Ex(c, dom, ctx)
-            draws = []
             GM = uf("SM9_G1_MUL", B256, PT); TM = uf("SM9_G2_MUL", B256, z3.BitVecSort(1536))
-            def rng(ex_, argv):
-                t = z3.BitVec("sm9rng_%d" % len(draws), 256); draws.append(t); return u256_val(t)
             def g1(ex_, argv):
                 vals = slice_vals(ex_, argv[0]) if isinstance(argv[0], Ref) and argv[0].rng is not None else ex_.load(argv[0]).f
                 return pt_val(GM(z3.Concat(*[dom.term(x) for x in reversed(vals)])))
@@ -101,24 +98,37 @@ def ob_keygen_sm9(fname, twist):
                 t = TM(k)
                 fp2 = lambda hi: Agg([u256_val(z3.Extract(hi, hi - 255, t)), u256_val(z3.Extract(hi - 256, hi - 511, t))], name="Fp2")
                 return Agg([fp2(1535), fp2(1023), fp2(511)], name="TwistPoint")
-            ex.summaries = {"sm9_random_u256": rng, "Point::g_mul": g1, "TwistPoint::g_mul": g2}
+            # whichever generator the function uses runs as real code; only the CSPRNG is the environment (fresh arbitrary bytes)
+            def cmp256(ex_, argv):              # exact model of u256_cmp (its own correctness: L1 obligations of C13)
+                a = z3.ZeroExt(1, u256_term(dom, ex_.load(argv[0]))); b = z3.ZeroExt(1, u256_term(dom, ex_.load(argv[1])))
+                return Sc(Sym(z3.If(z3.UGT(a, b), z3.BitVecVal(1, 32), z3.If(z3.ULT(a, b), z3.BitVecVal(-1, 32), z3.BitVecVal(0, 32)))), "i32")
+            ex.summaries = {"Point::g_mul": g1, "TwistPoint::g_mul": g2, "u256_cmp": cmp256}
+            ex.rng_max_calls = 2
             r = ex.run_fn(c.find(fname), [])
-            return dom, draws, GM, TM, r
-        paths = explore(run)
+            return dom, ex, GM, TM, r
+        paths = explore(run, prune=lambda a: smt.feasible(a, 10), max_paths=64)
         check_all_panics(stats, paths)
-        for ctx, (dom, draws, GM, TM, r) in live_paths(paths):
+        live = live_paths(paths)
+        if not live:
+            raise Inconclusive("no returning path within two draws")
+        for ctx, (dom, ex, GM, TM, r) in live:
+            hy = ctx.facts + ctx.pc
+            draws = getattr(ex, "rng_draw_bytes", None) or []
             if not draws:
-                raise Violation("%s returns a master key without drawing a scalar" % fname)
-            k = draws[-1]                  # the LAST scalar drawn in this call must be the one used
-            discharge(stats, ctx.facts + ctx.pc, u256_term(dom, r.f[0]) == k, "master secret is the scalar drawn in THIS call")
+                raise Violation("%s returns a master key without drawing from the CSPRNG" % fname)
+            if any(len(d) != 32 for d in draws):
+                raise Violation("%s draws %s bytes from the CSPRNG for a 256-bit scalar" % (fname, [len(d) for d in draws]))
+            k = u256_term(dom, r.f[0])
+            discharge(stats, hy, k == bytes_term(dom, draws[-1]), "master secret = big-endian integer of the LAST 32-byte draw of THIS call, unchanged")
+            discharge(stats, hy, z3.And(k != 0, z3.ULT(k, z3.BitVecVal(N9, 256))), "master secret lies in [1, N-1] (an out-of-range candidate is never used)")
             pub = r.f[1]
             if twist:
                 got = z3.Concat(*[u256_term(dom, c2) for co in pub.f for c2 in co.f])
-                discharge(stats, ctx.facts + ctx.pc, got == TM(k), "master public key = [k]P2")
+                discharge(stats, hy, got == TM(k), "master public key = [k]P2")
             else:
-                discharge(stats, ctx.facts + ctx.pc, pt_term(dom, pub) == GM(k), "master public key = [k]P1")
+                discharge(stats, hy, pt_term(dom, pub) == GM(k), "master public key = [k]P1")
         return {}
-    return run_obligation("keygen_sm9_%s" % fname.replace("::", "_"), ["gm_sm9::key::" + fname], "all sampler outputs", body, ["sm9_random_u256 -> fresh symbolic scalar", "g_mul -> uninterpreted"])
+    return run_obligation("keygen_sm9_%s" % fname.replace("::", "_"), ["gm_sm9::key::" + fname], "all CSPRNG outputs; at most two draws", body, ["thread_rng/fill_bytes -> environment delivering arbitrary bytes", "g_mul -> uninterpreted"])
 
 
 def run(tier, seed, t0):
